@@ -143,6 +143,38 @@ Proof.
 Qed.
 End Redraw.
 
+(** ---- (7b) the rule the code uses now: one draw; a proposal outside the cube is rejected ----
+    X is the whole space the proposal ranges over, [inside] the unit cube. The target is pi on the cube and 0 outside;
+    the reference density m (Student-t for tpCN, constant for RWM) is positive everywhere and q is m-reversible on the
+    whole space. The acceptance probability is the Metropolis-Hastings one for inside proposals and 0 for outside ones. *)
+Section RejectOutside.
+Variable X : Type.
+Variable inside : X -> bool.
+Variable pi m : X -> R.
+Variable q : X -> X -> R.
+Hypothesis pi_pos_inside : forall x, inside x = true -> 0 < pi x.
+Hypothesis m_pos : forall x, 0 < m x.
+Hypothesis q_reversible : forall x y, m x * q x y = m y * q y x.
+
+Definition pi_ext (x : X) : R := if inside x then pi x else 0.
+Definition alpha_rej (x y : X) : R := if inside y then Rmin 1 ((pi y * m x) / (pi x * m y)) else 0.
+
+(** detailed balance with the zero-extended target, for EVERY pair of points of the whole space *)
+Theorem reject_outside_detailed_balance x y :
+  pi_ext x * q x y * alpha_rej x y = pi_ext y * q y x * alpha_rej y x.
+Proof.
+  unfold pi_ext, alpha_rej. destruct (inside x) eqn:Ex; destruct (inside y) eqn:Ey; try ring.
+  set (pi' := fun z => if inside z then pi z else 1).
+  assert (Hp : forall z, 0 < pi' z). { intro z. unfold pi'. destruct (inside z) eqn:E; [now apply pi_pos_inside|lra]. }
+  pose proof (mh_detailed_balance X pi' m q Hp m_pos q_reversible x y) as H.
+  unfold flow, alpha, pi' in H. rewrite Ex, Ey in H. exact H.
+Qed.
+
+(** the chain never leaves the cube: from an inside point, an outside proposal has acceptance probability 0 *)
+Lemma reject_outside_stays_inside x y : inside y = false -> alpha_rej x y = 0.
+Proof. intro E. unfold alpha_rej. now rewrite E. Qed.
+End RejectOutside.
+
 (** the Student-t correction: the code's exponent is the log of the MH ratio with reference density t *)
 Theorem accept_is_mh_ratio beta l l' nu d delta delta' :
   exp (beta * (l' - l) + (logt nu d delta - logt nu d delta'))
